@@ -70,7 +70,7 @@ CHECKS = {
     'C15': dict(cat='proof', tech='pointer-provenance/alignment dataflow over clang -O0 IR of every library unit',
                 text='Every load, store and mem-intrinsic operand of the library (about 2800 sites) is checked: the alignment the access '
                      'carries must not exceed what the declared type of the pointer\'s origin guarantees (uint8_t* and header types: 1). '
-                     'With no over-aligned access into wire memory, results cannot depend on placement or optimisation level. The 64 typed '
+                     'Pointers may not escape (argument, stored, returned) under a stricter type either; an access behind a run-time alignment test is accepted. With no over-aligned access into wire memory, results cannot depend on placement or optimisation level (value-level placement dependence is covered by the engine checks, which fork on symbolic address bits). The 64 typed '
                      'accesses of the VSS codec are genuine and listed as known findings, site by site; any new site is a violation.',
                 ref='4.15', engine='rules',
                 note='trusted: clang-14 -O0 IR generation (access alignments are those the front end derives from the C types), irparse.py, '
@@ -116,7 +116,7 @@ CHECKS = {
                      'buffer size; constant-length copies stay inside their objects; a value read from the datagram (library getter on the '
                      'receive buffer, direct load, decoder out-parameter) is dominated by a bounding comparison before it is used as copy '
                      'length, object offset or VLA size; wire-stepped loops have a non-zero guard; no %s on receive-buffer bytes and no '
-                     'decoder result object with unset members. Breaking any clause breaks the property for some datagram; holding them does '
+                     'decoder result object with unset members; no access to an object at a point dominated by its free(). Breaking any clause breaks the property for some datagram; holding them does '
                      'not establish the property. The 11 flows that violate the clauses today are listed as known findings (each class '
                      'replayed under ASan, replays/c18); any new flow is a violation.', ref='4.18', engine='taint',
                 note='trusted: clang-14 -O0 + opt-14 mem2reg, irparse.py, taint.py (field-insensitive objects, context-insensitive '
@@ -125,7 +125,7 @@ CHECKS = {
                 text='The talker\'s real main() (sending loop, packet building, length bookkeeping) and new_packet of the listener are interpreted by '
                      'the bit-provenance engine over the IR of the example programs linked with the library; identifier (11/29 bits), RTR, '
                      'BRS/ESI/FDF and all data octets stay symbolic, frame length (0..8 / 0..64), TSCF/NTSCF, UDP/raw and 1-3 frames per '
-                     'packet are enumerated (quick 260 scenarios, thorough 588). The frames handed to write() must equal the input frames '
+                     'packet are enumerated, plus bulk packets of up to 61 classic / 18 FD frames with fixed flags (quick about 270 scenarios, thorough about 620). The frames handed to write() must equal the input frames '
                      'bit for bit and the control header must announce exactly the ACF octets that follow.', ref='4.19',
                 note=TB + '; recv/write/clock_gettime/stdio are modelled in verif/checks/c19.py; argp_parse and the socket helpers are replaced by models; the listener main()/poll '
                      'loop is not analysed; input frames are assumed well-formed (standard frame: no identifier bit above 10)'),
